@@ -48,9 +48,9 @@ type C07BlankCase struct {
 	// Config context is cancelled; the caller (whose own context lives on) must
 	// still get the answer for the report the monitor had already accepted
 	CancelCfgAtLast bool `json:"cancel_cfg_at_last,omitempty"`
-	BadWatcherAt int       `json:"bad_watcher_at,omitempty"` // 1-based: before that op the Blank is given a WATCHING source whose Value fails; the failed call must leave nothing behind
-	Reuse     bool         `json:"reuse,omitempty"` // the same Blank is (wrongly) handed to a second Config, which must refuse it without disturbing the first Dials
-	DoneFirst bool         `json:"done_first,omitempty"` // Blank.Done is called before the SetSource calls (the monitor lives on iff there is another watcher)
+	BadWatcherAt    int  `json:"bad_watcher_at,omitempty"` // 1-based: before that op the Blank is given a WATCHING source whose Value fails; the failed call must leave nothing behind
+	Reuse           bool `json:"reuse,omitempty"`          // the same Blank is (wrongly) handed to a second Config, which must refuse it without disturbing the first Dials
+	DoneFirst       bool `json:"done_first,omitempty"`     // Blank.Done is called before the SetSource calls (the monitor lives on iff there is another watcher)
 }
 
 func genC07Blank(t *rapid.T) C07BlankCase {
